@@ -404,6 +404,8 @@ class Exec(object):
         k = self.kind(tid)
         if k == 'pointer':
             return PtrV(term, self.U(tid)['elem'])
+        if k == 'func' and term.op == 'const' and term.val in getattr(self.ctx, 'fn_consts', {}):
+            return self.ctx.fn_consts[term.val]      # a function value stored earlier in this very execution
         if k in ('map', 'chan', 'func', 'interface'):
             return Opaque(term, tid)
         if self.is_float(tid):
@@ -422,6 +424,10 @@ class Exec(object):
         if isinstance(v, FuncV):
             if v.term is None:
                 v.term = self.ctx.fresh('fn:' + short_fn(v.name), INT)
+                self.ctx.assume(lt(ZERO, v.term))
+                if not hasattr(self.ctx, 'fn_consts'):
+                    self.ctx.fn_consts = {}
+                self.ctx.fn_consts[v.term.val] = v
             return v.term
         raise Unsupported('scalar_term of %r' % (v,))
 
